@@ -185,6 +185,11 @@ func (e *Engine) checkInverted(
 		go check(ctx, innerCh)
 		select {
 		case result := <-innerCh:
+			if result.Err != nil {
+				// an error is not a decision, there is nothing to invert
+				resultCh <- checkgroup.Result{Err: result.Err}
+				return
+			}
 			// invert result here
 			switch result.Membership {
 			case checkgroup.IsMember:
